@@ -20,12 +20,53 @@ def main():
         os.environ['VERIF_REPLAY'] = '1'      # a replay re-runs one case: its evidence goes to .scratch/evidence
         payload = json.load(open(a.replay))
         replay = payload.get('failure', {}).get('case', payload)
+    crc = 0
+    if replay is None:
+        crc = run_corpus(mod, a.pid, a.tier, seed)
     try:
         rc = mod.run(a.tier, seed, replay=replay)
     except Exception:
         traceback.print_exc()
         sys.exit(2)
-    sys.exit(rc)
+    sys.exit(max(rc, crc) if 2 not in (rc, crc) else 2)
+
+
+def run_corpus(mod, pid, tier, seed):
+    """corpus/<pid>/*.json: minimised cases on which an earlier version of the code under verification (a seeded
+    change, a repaired defect) failed.  They run first, on every run, independently of the seed; a case that fails
+    again is a VIOLATION with that file as replay."""
+    import glob, io, contextlib
+    from . import core
+    files = sorted(glob.glob(os.path.join(core.VERIF, 'corpus', pid, '*.json')))
+    if not files:
+        return 0
+    res = {'cases': len(files), 'failed': []}
+    worst = 0
+    os.environ['VERIF_REPLAY'] = '1'
+    try:
+        for f in files:
+            payload = json.load(open(f))
+            case = payload.get('failure', {}).get('case', payload)
+            buf = io.StringIO()
+            try:
+                with contextlib.redirect_stdout(buf):
+                    rc = mod.run(tier, seed, replay=case)
+            except Exception:
+                traceback.print_exc()
+                rc = 2
+            if rc == 1:
+                res['failed'].append(os.path.basename(f))
+                print('VIOLATION property=%s replay=%s' % (pid, f))
+                for line in buf.getvalue().split('\n'):
+                    if line.startswith('KNOWN-FINDING') or ' tier=' in line:
+                        print('  corpus case %s: %s' % (os.path.basename(f), line[:200]))
+            elif rc == 2:
+                print('corpus case %s could not be run' % f)
+            worst = max(worst, rc)
+    finally:
+        del os.environ['VERIF_REPLAY']
+    core.CORPUS_RESULT = res
+    return worst
 
 
 if __name__ == '__main__':
